@@ -2,7 +2,7 @@
    Statements only (copied from the lemma libraries); every proof is a bare
    `exact`; see the cited files in coq/proofs for the proofs. *)
 From Coq Require Import List NArith ZArith Bool Arith Sorting.Sorted Sorting.Permutation.
-From D2P Require Import Str Err Xml TableTypes Tables Fmt NumFmt Bullets Merge Collector Walk NumFmtFacts BulletsFacts PropGlue ShapeFacts FrameFacts SeqFacts PyVal Source SourceBase SourceNum SourceFmt SourceForms SourceBullets Paths Package SourceNumbering.
+From D2P Require Import Str Err Xml TableTypes Tables Fmt NumFmt Bullets Merge Collector Walk NumFmtFacts BulletsFacts PropGlue ShapeFacts FrameFacts SeqFacts PyVal Source SourceBase SourceNum SourceElem SourceForms SourceBullets Paths Package SourceNumbering.
 Import ListNotations.
 Open Scope N_scope.
 
